@@ -185,7 +185,8 @@ def parse_full(resp):
         scopes[parse_path(f["P"])] = {
             "kind": f["K"], "tag": int(f["G"]), "toplevel": f["T"] == "1", "loop": f["L"] == "1",
             "mlocals": None if f["M"] == "none" else set(dec_names(f["M"])),
-            "decls": decls, "conflicts": dec_names(f["X"]), "entry_errors": dec_names(f["E"]), "res": res}
+            "decls": decls, "order": dec_names(f["O"]),
+            "mlocals_order": None if f["MO"] == "none" else dec_names(f["MO"]), "conflicts": dec_names(f["X"]), "entry_errors": dec_names(f["E"]), "res": res}
     assert c.startswith("C=") and ml.startswith("ML=")
     mls = {}
     if ml[3:] != "_":
@@ -260,6 +261,7 @@ class CodeScope:
         self.shapes = set()
         self.loop = False
         self.mlocals = None
+        self.mlocals_order = None
         self.importns = False
         self.populate = []
         self.odd = []            # prelude statements not understood
@@ -326,6 +328,7 @@ def analyse_code(code):
                 continue
             if isinstance(st, ast.Assign) and _is_name(st.targets[0], "__M_locals") and _call_name(st.value) == "__M_dict_builtin":
                 sc.mlocals = {k.arg for k in st.value.keywords}
+                sc.mlocals_order = [k.arg for k in st.value.keywords]
                 i += 1
                 continue
             if isinstance(st, ast.Assign) and _is_name(st.targets[0], "_import_ns") and isinstance(st.value, ast.Dict):
